@@ -15,11 +15,12 @@ Next == /\ Len(t) < MaxLen
         /\ (Len(t) < FullLen \/ Viable(t))
         /\ \E c \in Sigma : t' = Append(t, c)
 
-Case(x) == LET r == ParseText(x) IN
+CaseOf(x, r) ==
   [t |-> x, ok |-> r.ok, why |-> r.why, at |-> r.i - 1,
    scope |-> FaultScope(x, r.why), v |-> r.v]
+Case(x) == CaseOf(x, ParseText(x))
 
-Emit == Len(t) >= MinEmit => CSVWrite("%1$s", <<ToJson(Case(t))>>, IOEnv.OUT)
+Emit == Len(t) >= MinEmit => \A r \in {ParseText(t)} : CSVWrite("%1$s", <<ToJson(CaseOf(t, r))>>, IOEnv.OUT)
 
 \* shift rule used by the replayer's alignment amplification (DESIGN section 3):
 \* leading spaces change neither the verdict nor the value
